@@ -165,6 +165,19 @@ def gen_c01(rng, tier, dist):
         replies = [rand_reply(rng, dist, longline and j == 0) for j in range(n)]
         tail = rng.choice([b"", b"", b"2", b"22", b"220", b"220 x", b"\r", b"150 partial", b"\n", b"x\r\n"])
         cases += wf_cases(rng, dist, replies, tail, maxcut)
+    # a long line (which makes the receive buffer grow to its full size) with a burst of further replies behind it: the
+    # buffer is filled to the brim while complete replies wait in it
+    for total in (3700, 5000, 8000, 8189, 8190, 8191):
+        for tm in ("c", "l"):
+            long1 = Reply(b"150", b" " + b"x" * (total - 4 - (2 if tm == "c" else 1)), tm)
+            behind = [Reply(b"226", b" " + bytes([97 + j]) * 2500, "c") for j in range(4)]
+            multi = Reply(b"211", b" start", "c", [(b"y" * (total - 2), "c")], b"end", "c")
+            for rs in ([long1] + behind, [long1, Reply(b"226", b" done", "c")], [multi] + behind):
+                stream = b"".join(r.render() for r in rs)
+                expect = " ".join(r.expected() for r in rs) + " | left=-"
+                for sched in ([], [4096] * 8, [1000] * 30, [8192] * 4, [512] * 40):
+                    cases.append(frame_case(len(rs), "eof", sched, b"", stream, expect))
+                dist.add("burst-behind-a-long-line:%d" % total, 5)
     # 150 and 226 back to back, every cut, both terminator styles
     for a in ("c", "l"):
         for b in ("c", "l"):
